@@ -367,6 +367,11 @@ def run(ctx):
         ok = sorted(got) == ['xy', 'zero']
         ctx.inst('E', 'Cel::top_left', ok, 'top_left alternatives %s; must be (x as i32, y as i32) of the raw cel, or (0, 0) when absent' % got, tl.span,
                  key=tl.name + '|E')
+    # ---------- indexed pixels of any (also sparse) palette: the load-time validator accepts exactly the indices that are palette keys
+    import invariants as _inv
+    okv, whyv = _inv.validator_scans_all(fx)
+    ctx.inst('V', 'indexed-pixel validator', okv, 'validate_indexed_pixels: %s (a dense-palette shortcut would reject valid sprites with a sparse '
+             'palette and accept indices that have no colour)' % whyv, None, key='asefile::palette::ColorPalette::validate_indexed_pixels|V|scan')
     # ---------- shared skeleton clauses
     render.opacity_and_mode(ctx)
     render.operands_and_offset(ctx)
